@@ -749,6 +749,15 @@ func queueOracleCase(r *rand.Rand) string {
 		go func() {
 			defer wg.Done()
 			for k := 0; k < 10; k++ {
+				if (j+k)%4 == 3 {
+					// a message over the queue's MTU is refused by Deliver (DeliverVec leaves the check to its callers) and
+					// leaves the queue as it was
+					over := make([]byte, 17+k)
+					if q.Deliver(p2p.Message[memswarm.Addr]{Src: memswarm.Addr{N: j*100 + k}, Payload: over}) {
+						bad("queue with MTU 16 accepted a message of %d bytes", len(over))
+					}
+					continue
+				}
 				if q.Deliver(p2p.Message[memswarm.Addr]{Src: memswarm.Addr{N: j*100 + k}, Payload: []byte{byte(k)}}) {
 					accepted.Add(1)
 				}
